@@ -180,7 +180,7 @@ def run(rep, tier):
     rep.assumptions += ['the decomposition heuristics are not modelled in Coq: their output is checked against the stated invariants for every generated circuit',
                         'the undecomposed model itself is tied to the specification by C03']
     rng = rep.rng()
-    N = 600 if quick else 8000
+    N = 1500 if quick else 16000
     ncolor_fail = 0
     import os
     extra = json.load(open(os.path.join(core.VERIF, 'corpus', 'C10.json')))
